@@ -56,7 +56,7 @@ def khatrirao(*matrices: np.ndarray, reverse: bool = False) -> np.ndarray:
         assert False, "All matrices must have the same number of columns."
 
     # Computation
-    P = matrices[0]
+    P = matrices[0].copy() if len(matrices) == 1 else matrices[0]
     for i in matrices[1:]:
         P = np.reshape(i, newshape=(-1, 1, ncolFirst)) * np.reshape(
             P, newshape=(1, -1, ncolFirst), order="F"
